@@ -45,6 +45,7 @@ func (e *Engine) reset() {
 	e.doneOf = map[string]T{}
 	e.strConsts = map[string]string{}
 	e.cellSeq = 0
+	e.makeFuncs = map[string]*Closure{}
 	e.sitesHit = map[string]bool{}
 	e.entered = map[string]bool{}
 }
